@@ -1045,3 +1045,7 @@ func (x *Exec) CompareAll() error {
 	}
 	return nil
 }
+
+func lookupArgs(dir nt.Nfs_fh3, name string) nt.LOOKUP3args {
+	return nt.LOOKUP3args{What: nt.Diropargs3{Dir: dir, Name: nt.Filename3(name)}}
+}
